@@ -13,7 +13,7 @@ from .algebra import close_num, MP_TOL, F64_TOL
 mpf = mpmath.mpf
 POINT = (mpf("1.1"), mpf("-2.2"), mpf("3.3"), mpf("10.5"))
 POINT2 = (mpf("-0.7"), mpf("1.9"), mpf("-2.4"), mpf("8.25"))
-KWVAL = {"lon": 0.625, "tmp": 7.5}
+KWVAL = {"lon": 0.3, "tmp": 7.1}      # not representable in float32 or as integers: a keyword value must not be cast to a neighbour's dtype
 MOMSPELL = {"x": "px", "y": "py", "rho": "pt", "phi": "phi", "z": "pz", "theta": "theta", "eta": "eta", "t": "energy", "tau": "mass"}
 
 
@@ -44,6 +44,12 @@ def build(backend, flavor, sig):
         return vector.obj(**{n: float(v) for n, v in zip(names, st1)})
     if backend == "np":
         return vector.array({n: numpy.array([float(a), float(b)]) for n, a, b in zip(names, st1, st2)})
+    if backend == "npf32":
+        return vector.array({n: numpy.array([float(a), float(b)], dtype=numpy.float32) for n, a, b in zip(names, st1, st2)})
+    if backend == "npint":
+        # integer-typed columns (Cartesian systems only: the other systems' coordinates are not integers)
+        ip1, ip2 = [1, -2, 3, 10][: len(sig) + 1], [-4, 5, -6, 12][: len(sig) + 1]
+        return vector.array({n: numpy.array([a, b], dtype=numpy.int64) for n, a, b in zip(names, ip1, ip2)})
     arr = vector.Array([{n: float(v) for n, v in zip(names, st)} for st in (st1, st2)])
     return arr if backend == "akarr" else arr[0]
 
@@ -108,7 +114,9 @@ def run_case(c, backends):
     kwmodes = ["value", "zero", "array"] if has_kw else ["value"]
     for backend, flavor, kwmode in [(b, f, k) for b in backends for f in ("generic", "momentum") for k in kwmodes]:
         if True:
-            if kwmode == "array" and backend not in ("np", "akarr"):
+            if kwmode == "array" and backend not in ("np", "akarr", "npf32", "npint"):
+                continue
+            if backend == "npint" and any(x not in ("xy", "z", "t") for x in src_sig):
                 continue
             v = build(backend, flavor, src_sig)
             number = mplib.M if backend == "mp" else float
@@ -119,7 +127,7 @@ def run_case(c, backends):
                     import awkward as ak_
 
                     arr = numpy.array([KWV[group], KWV[group] + 0.5])
-                    return arr if backend == "np" else ak_.Array(arr)
+                    return arr if backend.startswith("np") else ak_.Array(arr)
                 return number(KWV[group])
 
             kw = {}
@@ -145,7 +153,7 @@ def run_case(c, backends):
                 with warnings.catch_warnings(), numpy.errstate(all="ignore"):
                     warnings.simplefilter("ignore")
                     if name == "like":
-                        other = build("obj" if backend == "mp" else backend, "generic", coords.CANON[c["n"]])
+                        other = build("obj" if backend == "mp" else ("np" if backend.startswith("np") else backend), "generic", coords.CANON[c["n"]])
                         out = v.like(other)
                     else:
                         out = getattr(v, name)(**kw)
@@ -192,7 +200,7 @@ def run_case(c, backends):
                 else:
                     computed = True
             # computed groups: same geometric part as the source, and the way back
-            tol = MP_TOL if backend == "mp" else F64_TOL
+            tol = MP_TOL if backend == "mp" else (mpf(10) ** -5 if backend == "npf32" else F64_TOL)
             nsrc = len(ssig) + 1
             cs, cr = carts(v), carts(out)
             for es, er in zip(cs, cr):
@@ -228,7 +236,7 @@ def worker(args):
     return out
 
 
-def replay(cases, backends=("mp", "obj", "np", "akarr", "akrec"), procs=16):
+def replay(cases, backends=("mp", "obj", "np", "akarr", "akrec", "npf32", "npint"), procs=16):
     import multiprocessing as mp
 
     n = max(1, min(procs, len(cases)))
